@@ -18,26 +18,30 @@ Definition n_im_expr (lam irho : expr) : expr := ENeg (delta_expr lam irho).
    p + i q, p >= 0); r = (ki-kf)/(ki+kf) exp(-2 ki kf sigma^2); R = |r|^2
    = ((ki-kp)^2 + kq^2)/((ki+kp)^2 + kq^2) * exp(-4 ki kp sigma^2), kp = k p, kq = k q *)
 Definition k_expr (lam : expr) : expr := EDiv (EMul (ez 2) EPi) lam.
-Definition ki_expr (lam th : expr) : expr := EMul (k_expr lam) (ESin th).
-(* n^2 - cos^2 = za + i zb *)
-Definition za_expr (nr ni th : expr) : expr := ESub (ESub (ESqr nr) (ESqr ni)) (ESqr (ECos th)).
+(* in terms of st = sin(theta), ct = cos(theta):  n^2 - cos^2 = za + i zb *)
+Definition za_expr (nr ni ct : expr) : expr := ESub (ESub (ESqr nr) (ESqr ni)) (ESqr ct).
 Definition zb_expr (nr ni : expr) : expr := EMul (ez 2) (EMul nr ni).
-Definition zmod_expr (nr ni th : expr) : expr :=
-  ESqrt (EAdd (ESqr (za_expr nr ni th)) (ESqr (zb_expr nr ni))).
+Definition zmod_expr (nr ni ct : expr) : expr :=
+  ESqrt (EAdd (ESqr (za_expr nr ni ct)) (ESqr (zb_expr nr ni))).
 (* real part of the principal square root, and the square of its imaginary part *)
-Definition p_expr (nr ni th : expr) : expr :=
-  ESqrt (EDiv (EAdd (zmod_expr nr ni th) (za_expr nr ni th)) (ez 2)).
-Definition q2_expr (nr ni th : expr) : expr :=
-  EDiv (ESub (zmod_expr nr ni th) (za_expr nr ni th)) (ez 2).
-Definition kp_expr (lam nr ni th : expr) : expr := EMul (k_expr lam) (p_expr nr ni th).
-Definition kq2_expr (lam nr ni th : expr) : expr := EMul (ESqr (k_expr lam)) (q2_expr nr ni th).
+Definition p_expr (nr ni ct : expr) : expr :=
+  ESqrt (EDiv (EAdd (zmod_expr nr ni ct) (za_expr nr ni ct)) (ez 2)).
+Definition q2_expr (nr ni ct : expr) : expr :=
+  EDiv (ESub (zmod_expr nr ni ct) (za_expr nr ni ct)) (ez 2).
+Definition ki_expr (lam st : expr) : expr := EMul (k_expr lam) st.
+Definition kp_expr (lam nr ni ct : expr) : expr := EMul (k_expr lam) (p_expr nr ni ct).
+Definition kq2_expr (lam nr ni ct : expr) : expr := EMul (ESqr (k_expr lam)) (q2_expr nr ni ct).
 
-Definition refl_expr (lam nr ni th sg : expr) : expr :=
-  let ki := ki_expr lam th in
-  let kp := kp_expr lam nr ni th in
-  let kq2 := kq2_expr lam nr ni th in
+(* R from ki, kp = Re kf, kq2 = (Im kf)^2 and the roughness *)
+Definition refl_core (ki kp kq2 sg : expr) : expr :=
   EMul (EDiv (EAdd (ESqr (ESub ki kp)) kq2) (EAdd (ESqr (EAdd ki kp)) kq2))
        (EExp (ENeg (EMul (ez 4) (EMul (EMul ki kp) (ESqr sg))))).
+
+Definition refl_sc (lam nr ni st ct sg : expr) : expr :=
+  refl_core (ki_expr lam st) (kp_expr lam nr ni ct) (kq2_expr lam nr ni ct) sg.
+
+Definition refl_expr (lam nr ni th sg : expr) : expr :=
+  refl_sc lam nr ni (ESin th) (ECos th) sg.
 
 (* radians(angle) *)
 Definition radians_expr (deg : expr) : expr := EDiv (EMul deg EPi) (ez 180).
@@ -63,3 +67,20 @@ Definition f0_beyond (q : Q) : bool := if Qlt_le_dec STOL_LIMIT (stol64 q) then 
 (* Xray.f0(Q) of an atom with coefficients: None is NaN *)
 Definition f0_model (f : cmf) (q : Q) : option expr :=
   if f0_beyond q then None else Some (f0_expr f (ECst q)).
+
+(* ------------------------------------------------------------------ running the reflectivity *)
+(* the same expression evaluated in stages, so that sin, cos and the wave vectors are enclosed
+   once: each stage is evalI of a sub-expression of refl_expr over the enclosures of the previous
+   stage (sound by evalI_sound stage by stage) *)
+Definition ienv_of (p : F.precision) (l : list I.type) : nat -> I.type := fun n => nth n l (I.fromZ p 0).
+
+Definition refl_staged (p : F.precision) (lam nr ni th sg : expr) : I.type :=
+  let a := map (evalI p no_env_I) [lam; nr; ni; th; sg] in
+  let ea := ienv_of p a in
+  let st := evalI p ea (ESin (EVar 3)) in
+  let ct := evalI p ea (ECos (EVar 3)) in
+  let eb := ienv_of p [ea 0%nat; ea 1%nat; ea 2%nat; st; ct] in
+  let ki := evalI p eb (ki_expr (EVar 0) (EVar 3)) in
+  let kp := evalI p eb (kp_expr (EVar 0) (EVar 1) (EVar 2) (EVar 4)) in
+  let kq2 := evalI p eb (kq2_expr (EVar 0) (EVar 1) (EVar 2) (EVar 4)) in
+  evalI p (ienv_of p [ki; kp; kq2; ea 4%nat]) (refl_core (EVar 0) (EVar 1) (EVar 2) (EVar 3)).
